@@ -19,7 +19,8 @@ fn cfg() -> TolCfg<'static> {
 fn points(mode: Mode) -> Vec<f64> {
     let step = if mode == Mode::Quick { 4 } else { 1 };
     let mut v: Vec<f64> = (-3840i32..=3840).step_by(step).map(|k| k as f64 / 64.0).collect();
-    let mut sp = vec![0.0, 5e-324, 1e-300, 1e-8];
+    // 1e-3 .. 0.999: small arguments and the upper end of the series region of bessel_j2
+    let mut sp = vec![0.0, 5e-324, 1e-300, 1e-8, 1e-3, 0.03, 0.9, 0.99, 0.999, 1.001];
     for e in [1e-5f64, 5.0, 1.0] {
         sp.push(e);
         sp.push(f64::from_bits(e.to_bits() + 1));
@@ -144,7 +145,7 @@ fn main() {
         mode: cli.mode,
         seed: cli.seed,
         start,
-        rule: "bessel_j0/j1/j2 x f64 Copy dual types (scalar, static vector, thorough: nested up to 4th order) x the lattice k/64 (quick k/16) in [-60,60] plus 0, denormal, 1e-300, 1e-8, 1e-5, 1, 5 with float neighbours, both signs x {2 generic assignments of pairwise distinct non-unit parts, unit seeding}; plus bitwise parity f(-x) vs f(x) for every point".into(),
+        rule: "bessel_j0/j1/j2 x f64 Copy dual types (scalar, static vector, thorough: nested up to 4th order) x the lattice k/64 (quick k/16) in [-60,60] plus 0, denormal, 1e-300, 1e-8, 1e-5, 1, 5 with float neighbours, 1e-3, 0.03, 0.9, 0.99, 0.999, 1.001, both signs x {2 generic assignments of pairwise distinct non-unit parts, unit seeding}; plus bitwise parity f(-x) vs f(x) for every point".into(),
         assumptions: vec![
             "tolerance: real part 16 u absolute; derivative parts 128 u M + kappa_k u sum|N^k| with kappa_k = 32, 256, 8192, 65536 for orders 1..4 (differentiated approximants)".into(),
             "reference: Miller backward recurrence / Maclaurin series in double-double, Bessel ODE series jets, audited against mpmath".into(),
